@@ -40,6 +40,15 @@ def gen_chain(root, rng):
                                  extra_deps=["other_dep"] if rng.random() < 0.3 else ())
         if pl == "same_file":
             samefile_src = src + "\n"
+            if not ml and rng.random() < 0.4:
+                # two test classes, each overriding the name for its own tests
+                src2, _ = gen.fixture_src(ws, name, rng, self_param=True)
+                def in_class(cn, body):
+                    body = body.replace(f"def {name}(", f"def {name}(self, ").replace("(self, )", "(self)")
+                    return f"class {cn}:\n" + "".join(("    " + ln if ln.strip() else ln) for ln in body.splitlines(True)) + \
+                           f"\n    def test_in_{cn.lower()}(self, {name}):\n        pass\n\n"
+                samefile_src = in_class("TestAlpha", src) + in_class("TestBeta", src2)
+                spec["classes"] = True
         elif pl.startswith("conf"):
             d = DIRS[pl]
             key = d + "/conftest.py" if d else "conftest.py"
@@ -172,7 +181,9 @@ def classify_usage(ctx, ws, model, order, f, m, u, level="vh"):
     if u.get("has_default") or u["name"] in ("request", "self", "cls"):
         return exp, None, True
     if ex is not None and len(m.defs_named(u["name"])) >= 2:
-        return exp, None, True
+        # same-file redefinition: which outer definition is meant is not pinned by the statement, but
+        # "never to the overriding fixture itself" is (checked when the parameter is on the def line)
+        return exp, None, ("redef" if u["line"] == ex[1] else True)
     kf = None
     if ex is not None and u["line"] != ex[1]:
         # parameter on a continuation line: the implementation does not apply the exclusion there
@@ -194,6 +205,18 @@ def judge_workspace(ctx, ws, model, order, level, goto, refs):
     resolved = {}     # usage key -> actual/expected classification for the reverse relation
     for f, m, u in all_usages(ws, model):
         exp, kf, dc = classify_usage(ctx, ws, model, order, f, m, u, level)
+        if dc == "redef":
+            ex_ = u["in_def"]
+            for col in ([u["start_b"], u["end_b"] - 1]):
+                act = goto(f, u["line"], col)
+                ctx.judged()
+                if act == (f, ex_["line"]):
+                    ctx.violation({"kind": "parameter-resolves-to-its-own-fixture", "level": level, "file": os.path.relpath(f, ws.root),
+                                   "usage": [u["name"], u["line"], u["start_b"]]},
+                                  {"spec": ws.spec, "note": "same-named definitions in one file"}, files=ws.files)
+                    break
+            ctx.nontrivial(tag + (level, "self_param_redefined_file"))
+            continue
         if dc:
             ctx.count("dont_care")
             continue
